@@ -85,7 +85,7 @@ def derive(tree, budget=None, prep=None, sparse=False):
         root.removeHandler(h)
     # "own": the event ran with the library's own budget (C11: inputs of <= 20 nodes must finish inside it without the warning)
     return {"forms": forms, "nf": nf, "norm": norm, "warn": h.hit, "budget": budget if budget is not None else 1000, "own_budget": budget is None,
-            "library_budget": library_budget(), "capped": capped, "nsteps": steps}
+            "library_budget": library_budget(), "capped": capped, "nsteps": steps, "stepid": False}
 
 
 def second_round(rnd, tier):
@@ -247,6 +247,8 @@ def run(pid, tier, seed):
             continue
         d["i"] = i
         d["pts"] = points_for(t, tier, rnd) if J.size(t) < 150 else points_for(t, "quick", rnd)[:8]
+        # per-step identity verdicts (ReduceCases.Verdict.stepidv): short derivations in the quick tier, every one below 150 nodes in the thorough tier
+        d["stepid"] = J.size(t) < 150 and (tier == "thorough" or len(d["forms"]) <= 10)
         rows.append(d)
         cases.append((t, b))
     lines, results = tlcrun.run_chunked("ReduceCases", "ReduceCases.cfg", rows, chunk=6000, timeout=(900 if tier == "quick" else 2400))
@@ -360,6 +362,16 @@ def run(pid, tier, seed):
                 rep.known("KF-1", "rewrite rule NthRoot(NthPower(u,m),n) => NthPower(NthRoot(u,n),m) with n and m even changes the value / shrinks the domain")
             else:
                 tags_here.append(("C08.normalize_unsound", {**desc, "normalized": J.show(row["norm"])}))
+        for j, sv in enumerate(v.get("stepidv", [])):
+            if sv != "off":
+                counts["step_identity_" + sv] = counts.get("step_identity_" + sv, 0) + 1
+            if sv == "differs":
+                # a rational-fragment step never is the known finding KF-1 (that one needs an NthRoot)
+                tags_here.append(("C08.step_changes_value_on_identity_grid", {**desc, "step": j + 1, "before": J.show(row["forms"][j]), "after": J.show(row["forms"][j + 1])}))
+        if v.get("nfidv", "off") != "off":
+            counts["nf_identity_" + v["nfidv"]] = counts.get("nf_identity_" + v["nfidv"], 0) + 1
+            if v["nfidv"] == "differs":
+                tags_here.append(("C08.nf_changes_value_on_identity_grid", {**desc, "reduced": J.show(row["forms"][-1]), "nf": J.show(row["nf"])}))
         counts["identity_" + v["idv"]] = counts.get("identity_" + v["idv"], 0) + 1
         if v["idv"] == "differs":
             tags_here.append(("C08.normalize_changes_value_on_identity_grid", {**desc, "normalized": J.show(row["norm"])}))
